@@ -33,7 +33,7 @@ GROUPS += [
 ]
 
 for _fs in (8000, 12000, 16000, 24000, 48000):
-    GROUPS.append(dict(name='encode_native_decisions_fs%d' % _fs, cls='F', tu='C11_encode_native.c', entry='h_encode_native', dfcc=False, canary='real', expect_canaries=5, cex=False,
+    GROUPS.append(dict(name='encode_native_decisions_fs%d' % _fs, cls='F', tu='C11_encode_native.c', entry='h_encode_native', dfcc=False, canary='real', expect_canaries=5, cex=False, tier='quick' if _fs in (48000, 8000) else 'thorough',
         defines=['-DVERIF_FS=%d' % _fs, '-U__SSE__'], unwind=9, timeout=1800, mem_gb=16, cbmc_flags=['--object-bits', '10', '--no-array-field-sensitivity'],
         replace_calls=['opus_encode_frame_native:verif_encode_frame_native', 'compute_stereo_width:verif_compute_stereo_width',
                        'is_digital_silence:verif_is_digital_silence', 'compute_frame_energy:verif_compute_frame_energy'],
